@@ -27,7 +27,7 @@ class Cell:
         return v
     def set(self, eng, v):
         self.v = v
-    def sub(self, eng, proj):
+    def sub(self, eng, proj, variant=None):
         return None   # ordinary cells: the executor projects into the stored value
 
 class Lazy:
@@ -212,11 +212,56 @@ class SeqElemCell:
         return self.seq.load(eng, self.idx)
     def set(self, eng, v):
         self.seq.store(eng, self.idx, v)
-    def sub(self, eng, proj):
-        return None
+    def sub(self, eng, proj, variant=None):
+        if self.seq.scalar_sort is not None:
+            return None
+        return ElemFieldCell(self, proj, variant)
     @property
     def v(self):
         raise Unsupported('raw .v on SeqElemCell')
+
+
+class ElemFieldCell:
+    """write-through view of a field inside an element of a symbolic sequence"""
+    __slots__ = ('parent', 'proj', 'variant')
+
+    def __init__(self, parent, proj, variant=None):
+        self.parent = parent
+        self.proj = proj
+        self.variant = variant
+
+    def _field_cell(self, eng, v):
+        p = self.proj
+        if isinstance(v, Struct):
+            if p[1] in v.f:
+                return v.f[p[1]]
+            return v.field(eng, p[1], p[2])
+        if isinstance(v, EnumV):
+            vn = self.variant
+            if vn is None and v.edef is not None and len(v.edef.variants) == 1:
+                vn = v.edef.variants[0][0]
+            if vn is None:
+                raise Unsupported('field view into enum without a variant')
+            d = v.payload.setdefault(vn, {})
+            if p[1] in d:
+                return d[p[1]]
+            if v.backing is None:
+                d[p[1]] = Cell(None)
+                return d[p[1]]
+            return v.field(eng, vn, p[1], p[2])
+        raise Unsupported('field view into ' + type(v).__name__)
+
+    def get(self, eng):
+        v = self.parent.get(eng)
+        return self._field_cell(eng, v).get(eng)
+
+    def set(self, eng, x):
+        v = self.parent.get(eng)
+        self._field_cell(eng, v).set(eng, x)
+        self.parent.set(eng, v)
+
+    def sub(self, eng, proj, variant=None):
+        return ElemFieldCell(self, proj, variant)
 
 class SliceRef:
     """&[T] / &mut [T]: window into a sequence (SymSeq or ConcSeq)"""
